@@ -478,6 +478,44 @@ func c18BoundedRecursion(w *World, r *Report, fns []*ssa.Function) {
 						}
 					}
 				})
+				// or handed to an in-module helper that searches it (an extracted ancestor check)
+				if !searched {
+					for _, g := range withClosures(f) {
+						for _, c := range calls(g, false, func(c ssa.CallInstruction) bool { t := c.Common().StaticCallee(); return t != nil && w.fnSet[t] && t.Blocks != nil && t != f }) {
+							t := c.Common().StaticCallee()
+							for ai, a := range c.Common().Args {
+								isP := false
+								for _, rt := range w.prov(a, provOpts{}).Roots {
+									if rt.Kind == RParam && rt.Param == p {
+										isP = true
+									}
+								}
+								if !isP || ai >= len(t.Params) {
+									continue
+								}
+								q := t.Params[ai]
+								allInstrs(t, func(ins ssa.Instruction) {
+									var x ssa.Value
+									switch y := ins.(type) {
+									case *ssa.Range:
+										x = y.X
+									case *ssa.IndexAddr:
+										x = y.X
+									case *ssa.Index:
+										x = y.X
+									default:
+										return
+									}
+									for _, rt := range w.prov(x, provOpts{}).Roots {
+										if rt.Kind == RParam && rt.Param == q {
+											searched = true
+										}
+									}
+								})
+							}
+						}
+					}
+				}
 				if extended && searched {
 					bounded = "ancestor list " + p.Name()
 				}
